@@ -73,7 +73,7 @@ TESTED_NOT_PROVED = [
     "explicit_hydrogen=True exports of graphs with implicit hydrogens; core=False (full) exports on ITS graphs outside its_ok; h_to_explicit "
     "with its=True beyond the total count: correspondence + oracle only",
 ]
-LEVEL_TEXT = ("Machine-checked proof (Coq, 29 theorems, closed under the global context) over an executable model of the GML writer/reader at "
+LEVEL_TEXT = ("Machine-checked proof (Coq, 31 theorems, closed under the global context) over an executable model of the GML writer/reader at "
               "record level, of its_to_gml / gml_to_its / smart_to_gml / get_rc / its_decompose / ITSGraph at graph level, of h_to_explicit / "
               "h_to_implicit, and of the attribute copying of MolToGraph / GraphToMol: label round trip for every element symbol and every "
               "charge; ITS -> GML -> ITS restores atoms, both-side charges and (before, after) orders for every reaction-centre-shaped ITS, "
@@ -295,6 +295,21 @@ def rec_obs(rec):
     if rec is None:
         return ["UNPARSEABLE-TEXT"]
     return [[s, [list(e) for e in es]] for s, es in rec]
+
+
+def _py_rec_okb(text):
+    """independent definition of the model's rec_okb on the text the writer produced: every entry line, stripped, has a label
+    without whitespace / double quote and contains no section keyword (an edge line not the word node either)"""
+    for ln in text.split("\n"):
+        b = ln.strip()
+        if not b.startswith(("node", "edge")):
+            continue
+        m = re.fullmatch(r'(node \[ id \d+|edge \[ source \d+ target \d+) label "(.*)" \]', b)
+        if m is None or re.search(r'[\s"\x1c-\x1f]', m.group(2)):
+            return False
+        if any(k in b for k in ("left", "context", "right")) or (b.startswith("edge") and "node" in b):
+            return False
+    return True
 
 
 def _text_obs(text):
@@ -526,9 +541,9 @@ def impl(case):
             c = get_rc(I) if core else I
             r, p = its_decompose(c)
             text = its_to_gml(to_nx(case["its"]), core=core, reindex=reindex, explicit_hydrogen=eh)
-            out.append([[[[[gr_ord_obs(c), gr_ord_obs(r), gr_ord_obs(p), rec_obs(text_to_rec(text)), parsed_obs(text)], _py_its_ok(c)],
+            out.append([[[[[[gr_ord_obs(c), gr_ord_obs(r), gr_ord_obs(p), rec_obs(text_to_rec(text)), parsed_obs(text)], _py_its_ok(c)],
                          True, all(d.get("typesGH") is not None for _, d in I.nodes(data=True))],
-                        all((d.get("hcount", 0) or 0) <= 0 for _, d in c.nodes(data=True))], text])
+                        all((d.get("hcount", 0) or 0) <= 0 for _, d in c.nodes(data=True))], text], _py_rec_okb(text)])
         return out
     if k == "hist":
         return run_hist(case["script"])
@@ -582,7 +597,7 @@ def coq_case(case):
             if any(c[0] and c[2] for c in case["cfgs"]) and _hh_without_std(case["its"]):
                 return None      # see _hh_without_std: outside the model's domain (oracle only)
             g = enc_gr(case["its"])
-            return "(let g := %s in %s)" % (g, clistL(["run_its5 g %s %s %s" % (cbool(a), cbool(b), cbool(c))
+            return "(let g := %s in %s)" % (g, clistL(["run_its6 g %s %s %s" % (cbool(a), cbool(b), cbool(c))
                                                         for a, b, c in case["cfgs"]]))
         if k == "hist":
             return coq_hist(case["script"])
@@ -1507,7 +1522,7 @@ def oracle(case):
 
 def _rec_of(k, o):
     """the GML record inside one per-configuration observable"""
-    return o[0][0][0][0][-2] if k == "its" else o[0][0][-2]
+    return o[0][0][0][0][0][-2] if k == "its" else o[0][0][-2]
 
 
 def nontrivial(case, obs):
@@ -1583,9 +1598,10 @@ def distribution(cases, obss):
                         key = "smart_roundtrip_domain:" + str(bool(oo[0][1] and oo[0][2] and oo[0][3] and oo[0][4]))
                         d["cfg_counts"][key] = d["cfg_counts"].get(key, 0) + 1
                     if k == "its":
-                        d["its_ok_exports"][str(bool(oo[0][0][0][1]))] = d["its_ok_exports"].get(str(bool(oo[0][0][0][1])), 0) + 1
+                        d["its_ok_exports"][str(bool(oo[0][0][0][0][1]))] = d["its_ok_exports"].get(str(bool(oo[0][0][0][0][1])), 0) + 1
+                        d["text_theorem_domain"] = d.get("text_theorem_domain", 0) + (1 if oo[1] else 0)
                         if c["cfgs"][o.index(oo)][2]:
-                            key = "explicit_h_theorem_domain:" + str(bool(oo[0][0][0][1] and oo[0][1]))
+                            key = "explicit_h_theorem_domain:" + str(bool(oo[0][0][0][0][1] and oo[0][0][1]))
                             d["cfg_counts"][key] = d["cfg_counts"].get(key, 0) + 1
                     if len(rec) == 3:
                         ids = {e[1] for s in rec for e in s[1] if e[0] == 0}
